@@ -347,26 +347,70 @@ theorem assign_sem (st : TSt) (lhs : CExpr) (op : String) (e : CExpr)
   obtain ⟨ef, sf⟩ := y
   exact ⟨rfl, hxy.2⟩
 
-/-- **conditions**: the `BRANCH`/`REPEAT` condition of the code evaluates like the one of the repaired lowering -/
-theorem cond_sem (e : CExpr) (hcarve : CarveESem env.assigned e = true) (hwf : WFES c e = true)
+omit hms hinv in
+/-- the result of `!`/`&&`/`||` is a `BooleanOp` object (whatever the configuration types it as) -/
+theorem kind_of_isNotLog {env : CEnv} {e : CExpr} {a : CE} (hn : isNotLog e = true)
+    (hA : compileExpr env e = .ok a) : a.kind = .boolObj := by
+  cases e with
+  | not x =>
+    rw [compileExpr_not] at hA
+    obtain ⟨cx, _, h⟩ := C05.bind_ok hA
+    simp only [Except.ok.injEq] at h
+    rw [← h]
+  | log op x y =>
+    rw [compileExpr_log] at hA
+    obtain ⟨cx, _, h⟩ := C05.bind_ok hA
+    obtain ⟨cy, _, h⟩ := C05.bind_ok h
+    simp only [Except.ok.injEq] at h
+    rw [← h]
+  | _ => simp [isNotLog] at hn
+
+omit hms hinv in
+theorem carveNSem_of_carveCSem {e : CExpr} (h : CarveCSem env e = true) : CarveNSem env.assigned e = true := by
+  unfold CarveCSem at h
+  simp only [Bool.and_eq_true] at h
+  exact h.1
+
+/-- a condition in the condition-position carve-out: the two lowerings fail together -/
+theorem cond_res_sem (e : CExpr) (hcarve : CarveCSem env e = true) (hwf : WFES c e = true) :
+    ResRel (fun a f => CERel ms σ (normTy e a) f) (compileExpr (codeEnv env) e) (compileExpr (fixedEnv env) e) :=
+  expr_sem_upto_boolTy hms hinv env.assigned e (carveNSem_of_carveCSem env hcarve) hwf
+
+/-- **conditions**: the `BRANCH`/`REPEAT` condition of the code evaluates like the one of the repaired lowering, on the
+    condition-position carve-out `CarveCSem`: a `!`/`&&`/`||` at the top is typed differently by the two lowerings
+    (`normTy`), but its IL boolean is the condition as it is for both of them. -/
+theorem cond_sem (e : CExpr) (hcarve : CarveCSem env e = true) (hwf : WFES c e = true)
+    {a : CE} (hA : compileExpr (codeEnv env) e = .ok a) :
+    ∃ f, compileExpr (fixedEnv env) e = .ok f ∧ PEqAt ms σ [] (condIL Cfg.asCode a) (condIL Cfg.fixed f) := by
+  obtain ⟨f, hF, r⟩ := (cond_res_sem hms hinv env e hcarve hwf).ok_left hA
+  refine ⟨f, hF, condIL_sem e r ?_⟩
+  unfold CarveCSem at hcarve
+  simp only [Bool.and_eq_true, Bool.or_eq_true] at hcarve
+  unfold condSafe
+  by_cases hn : isNotLog e = true
+  · rw [kind_of_isNotLog hn hA, hn]; rfl
+  · have hok := hcarve.2.resolve_left hn
+    rw [hF] at hok
+    simp only [condOK] at hok
+    have hn' : isNotLog e = false := by simpa using hn
+    rw [normTy_of_not hn'] at r
+    rw [hn', r.kind, r.ty, Bool.false_or]
+    exact hok
+
+/-- `cond_sem` in the form it had before the condition-position carve-out existed: a VALUE-carved condition whose
+    repaired compilation is `condOK` -/
+theorem cond_sem_value (e : CExpr) (hcarve : CarveESem env.assigned e = true) (hwf : WFES c e = true)
     {a : CE} (hA : compileExpr (codeEnv env) e = .ok a)
     (hok : ∀ f, compileExpr (fixedEnv env) e = .ok f → condOK f = true) :
     ∃ f, compileExpr (fixedEnv env) e = .ok f ∧ PEqAt ms σ [] (condIL Cfg.asCode a) (condIL Cfg.fixed f) := by
-  obtain ⟨f, hF, r⟩ := (expr_sem hms hinv env e hcarve hwf).ok_left hA
-  refine ⟨f, hF, ?_⟩
-  have hco := hok f hF
-  simp only [condOK, beq_iff_eq] at hco
-  simp only [condIL, cfgsimp, ↓reduceIte, Bool.false_eq_true, condILk]
-  by_cases hk : f.kind = .boolObj
-  · have hfl : f.ty.hasFlag VT.gBOOL = true := by rw [← hco]; simp [hk]
-    simp only [r.kind, hk, hfl, ↓reduceIte]
-    exact r.il
-  · have hfl : f.ty.hasFlag VT.gBOOL = false := by rw [← hco]; simp [hk]
-    simp only [hfl, Bool.false_eq_true, ↓reduceIte]
-    have hka : a.kind ≠ .boolObj := r.kind ▸ hk
-    split
-    · next h => exact absurd h hka
-    · exact PEqAt.un _ r.il
+  refine cond_sem hms hinv env e ?_ hwf hA
+  unfold CarveESem at hcarve
+  unfold CarveCSem
+  simp only [Bool.and_eq_true, Bool.or_eq_true] at hcarve ⊢
+  refine ⟨hcarve.1, Or.inr ?_⟩
+  split
+  · next cc hcc => exact hok cc hcc
+  · rfl
 
 end
 
@@ -425,22 +469,22 @@ theorem stmt_state_sem :
   | .ret e, st, _, _, _ => by simp only [compileStmt]; trivial
   | .ite x t none, st, h, hwf, hwfe => by
       simp only [CarveSSem, Bool.and_eq_true] at h
-      obtain ⟨⟨⟨hx, _⟩, ht⟩, _⟩ := h
+      obtain ⟨⟨hx, ht⟩, _⟩ := h
       simp only [WFStmt, Bool.and_eq_true] at hwf
       simp only [exprsOf, List.all_cons, List.all_append, Bool.and_eq_true] at hwfe
       simp only [compileStmt]
-      refine (expr_sem hms hinv env x hx hwfe.1).bind (fun a f _ _ _ => ?_)
+      refine (cond_res_sem hms hinv env x hx hwfe.1).bind (fun a f _ _ _ => ?_)
       refine (stmts_state_sem t _ ht hwf.1 hwfe.2.1).bind (fun p q _ _ hpq => ?_)
       obtain ⟨ts, s1⟩ := p
       obtain ⟨ts', s2⟩ := q
       exact hpq
   | .ite x t (some e), st, h, hwf, hwfe => by
       simp only [CarveSSem, Bool.and_eq_true] at h
-      obtain ⟨⟨⟨hx, _⟩, ht⟩, hee⟩ := h
+      obtain ⟨⟨hx, ht⟩, hee⟩ := h
       simp only [WFStmt, Bool.and_eq_true] at hwf
       simp only [exprsOf, List.all_cons, List.all_append, Bool.and_eq_true] at hwfe
       simp only [compileStmt]
-      refine (expr_sem hms hinv env x hx hwfe.1).bind (fun a f _ _ _ => ?_)
+      refine (cond_res_sem hms hinv env x hx hwfe.1).bind (fun a f _ _ _ => ?_)
       refine (stmts_state_sem t _ ht hwf.1 hwfe.2.1).bind (fun p q _ _ hpq => ?_)
       obtain ⟨ts, s1⟩ := p
       obtain ⟨ts', s2⟩ := q
@@ -452,12 +496,12 @@ theorem stmt_state_sem :
       exact hpq
   | .for_ v x step b, st, h, hwf, hwfe => by
       simp only [CarveSSem, Bool.and_eq_true, beq_iff_eq] at h
-      obtain ⟨⟨⟨hs, hx⟩, _⟩, hb⟩ := h
+      obtain ⟨⟨hs, hx⟩, hb⟩ := h
       subst hs
       simp only [WFStmt, Bool.and_eq_true] at hwf
       simp only [exprsOf, List.all_cons, Bool.and_eq_true] at hwfe
       simp only [compileStmt]
-      refine (expr_sem hms hinv env x hx hwfe.1).bind (fun a f _ _ _ => ?_)
+      refine (cond_res_sem hms hinv env x hx hwfe.1).bind (fun a f _ _ _ => ?_)
       simp only [beq_self_eq_true, ↓reduceIte]
       refine (stmts_state_sem b _ hb hwf.2 hwfe.2).bind (fun p q _ _ hpq => ?_)
       obtain ⟨bs, s1⟩ := p
